@@ -77,7 +77,7 @@ func gen(t *rapid.T) Case {
 	c.Workers = rapid.IntRange(1, 4).Draw(t, "workers")
 	c.BaseMs = rapid.SampledFrom([]int64{0, 0, 250, 20_000, 3_599_000, 1_234_500}).Draw(t, "base")
 	n := rapid.IntRange(1, 40).Draw(t, "n")
-	period := map[int]int64{} // generator's view of what is scheduled
+	period := map[int]int64{}  // generator's view of what is scheduled
 	blocking := map[int]bool{} // ids whose executor behaviour is "block"
 	ids := func() []int {
 		var l []int
@@ -398,6 +398,12 @@ func (w *world) blockedWorkers() map[int]int { // worker -> id of the blocked ru
 	return m
 }
 
+func (w *world) blockedSnap() map[int]int {
+	w.mu.Lock()
+	defer w.mu.Unlock()
+	return w.blockedWorkers()
+}
+
 // settled: no executor call in progress other than deliberately blocked ones, every
 // finished call checkpointed, and no due occurrence outstanding for a task whose worker is
 // not blocked. Caller holds w.mu.
@@ -637,7 +643,7 @@ func run(c Case, cc *kit.Case) {
 			if !bounded(func() {
 				serr = s.Schedule(schedulable{id: scheduler.ID(op.ID), s: sch, off: time.Duration(op.Off) * time.Second, last: aligned})
 			}) {
-				cc.Fail("hang/schedule", "op %d: Schedule(%d) did not return within %v (blocked executors: %v)", i, op.ID, hangBound, w.blockedWorkers())
+				cc.Fail("hang/schedule", "op %d: Schedule(%d) did not return within %v (blocked executors: %v)", i, op.ID, hangBound, w.blockedSnap())
 				return
 			}
 			if serr != nil {
@@ -663,7 +669,7 @@ func run(c Case, cc *kit.Case) {
 			w.mu.Unlock()
 			var rerr error
 			if !bounded(func() { rerr = s.Release(scheduler.ID(op.ID)) }) {
-				cc.Fail("hang/release", "op %d: Release(%d) did not return within %v (blocked executors: %v)", i, op.ID, hangBound, w.blockedWorkers())
+				cc.Fail("hang/release", "op %d: Release(%d) did not return within %v (blocked executors: %v)", i, op.ID, hangBound, w.blockedSnap())
 				return
 			}
 			if rerr != nil {
@@ -725,6 +731,10 @@ func run(c Case, cc *kit.Case) {
 			if hc.advance(d, setNow) {
 				labels["mock:tick-dropped(channel-full)"] = true
 			}
+			if hc.stuck {
+				cc.Fail("hang/scheduler-mutex", "op %d %+v: the scheduler's mutex (needed by Schedule and Release) was held for more than %v (blocked executors: %v)", i, op, hangBound, w.blockedSnap())
+				return
+			}
 		case "behave":
 			if op.ID < 1 || op.ID > maxID {
 				cc.Fail("harness/case", "op %d: id %d", i, op.ID)
@@ -773,6 +783,10 @@ func run(c Case, cc *kit.Case) {
 		if failed {
 			return
 		}
+		if hc.stuck {
+			cc.Fail("hang/scheduler-mutex", "after op %d %+v: the scheduler's mutex (needed by Schedule and Release) was held for more than %v (blocked executors: %v)", i, op, hangBound, w.blockedSnap())
+			return
+		}
 		if !ok {
 			w.mu.Lock()
 			w.fail(sig, "after op %d %+v (waited %v): %s", i, op, hangBound, why)
@@ -799,9 +813,12 @@ func waitSettled(w *world, hc *hclock) (bool, string, string) {
 		if now.Sub(start) > hangBound {
 			return false, sig, why
 		}
+		if hc.stuck {
+			return true, "", ""
+		}
 		if now.After(nextFlush) {
 			hc.advance(0, nil) // timers whose deadline has passed fire (real-timer semantics)
-			nextFlush = now.Add(50 * time.Millisecond)
+			nextFlush = time.Now().Add(50 * time.Millisecond)
 		}
 		select {
 		case <-w.notify:
@@ -819,8 +836,8 @@ func tail(s []string, n int) []string {
 
 var assumptions = []string{
 	"occurrences are computed with the scheduler.Schedule (influxdata/cron) value handed to the scheduler: the cron library is trusted",
-	"lastScheduled goes through scheduler.NewSchedule (truncation/alignment) exactly as coordinator.NewSchedulableTask does; it is never after the clock; on re-Schedule it is mostly the latest checkpoint of the id (what the coordinator persists), sometimes clock-relative",
-	"offsets are whole seconds (the scheduler keeps int64(Offset().Seconds())); sub-second offsets are not generated",
+	"lastScheduled goes through scheduler.NewSchedule (truncation/alignment) exactly as coordinator.NewSchedulableTask does; on Schedule it is the clock minus 0..30 periods, on re-Schedule mostly the latest checkpoint of the id (what the coordinator persists; with a negative offset that can be ahead of the clock), sometimes clock-relative",
+	"offsets are whole seconds, positive or negative (task/options validation: 'offset option must be expressible as whole seconds', negative allowed); schedules have whole-second periods >= 1 s",
 	"a re-Schedule defines a new epoch: runs after it are the consecutive occurrences after the NEW lastScheduled (an occurrence may therefore legitimately run again after a re-Schedule that rewinds); checkpoints are required to move forward within an epoch",
 	"clock = benbjohnson/clock Mock v1.1.0; the harness advances it with the scheduler's mutex held (atomic jump), flushes due timers after every operation and drops a tick when the timer channel is full (real time.Timer semantics); see clock_test.go",
 	"worker of an id = xxhash(id) mod workers (TreeScheduler doc comment): used only to decide which due occurrences can be waited for while an executor is blocked, and for labels",
